@@ -482,6 +482,16 @@ class FragGen:
         out.append("start :: fn do")
         out += self.block(env, 2, 1, self.r.randint(3, 8))
         out.append("end")
+        if self.stage >= 6:
+            # stage 4b: outer definitions after start (the resolver keeps them after it: start does not use them)
+            env2 = {k2: list(v) for k2, v in env.items()}
+            for _ in range(self.r.randint(1, 3)):
+                if self.r.random() < 0.5:
+                    g = self.fresh("t")
+                    out.append("%s :: %s" % (g, self.int_expr(env2, 2)))
+                    env2["ints"].append(g)
+                else:
+                    out += self.function(env2)
         return "\n".join(out) + "\n"
 
     def function(self, env):
